@@ -274,7 +274,7 @@ func TestC15Lengths(t *testing.T) {
 	if ev.Replaying() {
 		t.Skip()
 	}
-	if ev.Shard() != 0 {
+	if ev.ShardIndex() != 0 {
 		t.Skip("enumeration runs on shard 0 only")
 	}
 	n := 0
@@ -311,7 +311,7 @@ func TestC15Groups(t *testing.T) {
 	if ev.Replaying() {
 		t.Skip()
 	}
-	if !ev.Thorough() || ev.Shard() != 0 {
+	if !ev.Thorough() || ev.ShardIndex() != 0 {
 		t.Skip("thorough tier, shard 0 only")
 	}
 	buf := make([]byte, 3<<24)
